@@ -28,7 +28,27 @@ pub(crate) fn escape_html_quote(s: &str) -> Cow<'_, str> {
 }
 
 pub(crate) fn gen_lit_str(s: &str) -> String {
-    format!("{:?}", s)
+    let debug = format!("{:?}", s);
+    if !debug.contains("\\0") {
+        return debug;
+    }
+    // `\0` followed by a digit would be read as a legacy octal escape in JavaScript
+    // (a different value, and a syntax error in strict mode): use `\x00` there
+    let mut ret = String::with_capacity(debug.len() + 4);
+    let mut chars = debug.chars().peekable();
+    while let Some(c) = chars.next() {
+        ret.push(c);
+        if c == '\\' {
+            if let Some(escaped) = chars.next() {
+                if escaped == '0' && matches!(chars.peek(), Some('0'..='9')) {
+                    ret.push_str("x00");
+                } else {
+                    ret.push(escaped);
+                }
+            }
+        }
+    }
+    ret
 }
 
 pub(crate) fn dash_to_camel(s: &str) -> CompactString {
